@@ -576,5 +576,25 @@ def runFromSetup (c : Cfg α) (s : St α) (a0 : EvalAns α) (eqMulti : List (Opt
     (steps : List (StepAns α)) : Option (St α × α) :=
   runSteps c tf dtminS (setupState c s a0 eqMulti) dtmaxS steps
 
+
+/-! ## `reset()`: back to the constructed state
+
+`PrecipitateModel.reset` (after repair 9231d6f: the configured population balance models are kept): `PrecipitateBase.reset` →
+`_resetArrays` (fresh one-row `pData`, dissolution and driving-force indices zero), then `PBM[i].reset()` (original grid, empty
+distribution) and `resetRecordedData()`; the tables, the growth field and the lookup temperature are attributes that `reset` does
+not touch (the next `setup()` rewrites them). -/
+def resetState (c : Cfg α) (s : St α) : St α :=
+  { s with ph := s.ph.map (fun ps => { ps with grid := { Grid.reset ps.grid true with recBins := [], recPsd := [], recTime := [] },
+                                               dissIdx := 0, rdfIdx := 0 }),
+           hist := [{ time := 0, temp := 0, comp := zerosL c.nElem,
+                      ph := List.replicate c.phases.length (PSlice.zero c.nElem) }] }
+
+/-- the state a freshly constructed model is in: PBMs as `setPBMParameters` builds them, no tables, one empty row -/
+def freshState (c : Cfg α) (grids : List (Grid.State α)) : St α :=
+  { ph := grids.map (fun g => { grid := g, xaT := [], xbT := [], growth := [], dissIdx := 0, rdfIdx := 0 }),
+    lookT := 0, lookEqA := [], lookEqB := [],
+    hist := [{ time := 0, temp := 0, comp := zerosL c.nElem,
+               ph := List.replicate c.phases.length (PSlice.zero c.nElem) }] }
+
 end generic
 end KawinV.KWNFull
